@@ -102,7 +102,7 @@ def matches(got, want, same_string_types):
     return got == want
 
 
-def check(chk, prog, cfg, only=None):
+def check(chk, prog, cfg, only=None, helpers=None):
     chk.rule("R2.1", "every IntoPortable impl is a field-wise homomorphism, decided on symbolic runs: output field k is the image of input field k under the transfer "
              "function of k's declared type (ids: register_type(registry, &x); strings: the String conversion; Option / Vec: element-wise, order kept; "
              "nested model values: their own into_portable; plain data: copied) and nothing else")
@@ -195,7 +195,7 @@ def check(chk, prog, cfg, only=None):
                     ok, detail = False, "cannot interpret: %s" % e
                 chk.expect(ok, "R2.2", "%s:arm:%s" % (short, vname), b.where(), detail, cfg)
             chk.ok("R2.1", "impl:" + short, b.where(), "%d variants" % len(adt["variants"]), cfg)
-    if only is None:
+    if helpers if helpers is not None else only is None:
         for fn, mk in (("register_types", lambda x: ("id-of", x)), ("map_into_portable", None)):
             cands = [p for p in prog.fns if mir.strip_generics(p) == "scale_info::registry::Registry::" + fn]
             if len(cands) != 1:
